@@ -233,7 +233,15 @@ func briefStack(st string) string {
 	return strings.Join(out, " < ")
 }
 
+// NewHub builds the environment and initialises it from the configuration's genesis.
 func NewHub(cfg Config) *Hub {
+	h := NewBareHub(cfg)
+	h.InitFromConfig()
+	return h
+}
+
+// NewBareHub wires stores and keepers but runs no genesis (for import experiments).
+func NewBareHub(cfg Config) *Hub {
 	cfg.fill()
 	h := &Hub{Cfg: cfg, keys: map[string]*sdk.KVStoreKey{}}
 	h.Cdc = MakeCodec()
@@ -272,8 +280,37 @@ func NewHub(cfg Config) *Hub {
 	h.Msg = mkeeper.NewMsgServerImpl(h.K)
 	h.OMsg = okeeper.NewMsgServerImpl(h.O)
 
-	// genesis
-	ctx := sdk.NewContext(ms, tmproto.Header{Height: 0, Time: time.Unix(1600000000, 0).UTC()}, false, log.NewNopLogger())
+	h.Height = 0
+	h.Time = 1600000000
+	return h
+}
+
+// GenesisCtx is a context writing straight to the root store (genesis time).
+func (h *Hub) GenesisCtx() sdk.Context {
+	return sdk.NewContext(h.ms, tmproto.Header{Height: h.Height, Time: time.Unix(h.Time, 0).UTC()}, false, log.NewNopLogger())
+}
+
+// InitBase sets what the modules under test need from auth/bank.
+func (h *Hub) InitBase() sdk.Context {
+	ctx := h.GenesisCtx()
+	h.Acc.SetParams(ctx, authtypes.DefaultParams())
+	h.Bank.SetParams(ctx, banktypes.Params{DefaultSendEnabled: true})
+	h.Acc.SetModuleAccount(ctx, authtypes.NewEmptyModuleAccount(mtypes.ModuleName, authtypes.Minter, authtypes.Burner))
+	return ctx
+}
+
+// CopyStoreFrom copies one store's raw contents from another hub (used for auth and bank, which are not under test).
+func (h *Hub) CopyStoreFrom(o *Hub, name string) {
+	dst := h.GenesisCtx().KVStore(h.keys[name])
+	for _, kv := range o.Dump(name) {
+		dst.Set(kv.K, kv.V)
+	}
+}
+
+// InitFromConfig runs the genesis derived from the configuration.
+func (h *Hub) InitFromConfig() {
+	cfg := h.Cfg
+	ctx := h.GenesisCtx()
 	h.Acc.SetParams(ctx, authtypes.DefaultParams())
 	h.Bank.SetParams(ctx, banktypes.Params{DefaultSendEnabled: true})
 	h.Acc.SetModuleAccount(ctx, authtypes.NewEmptyModuleAccount(mtypes.ModuleName, authtypes.Minter, authtypes.Burner))
@@ -302,9 +339,6 @@ func NewHub(cfg Config) *Hub {
 		a := sdk.AccAddress(ValAddr(i))
 		h.Acc.SetAccount(ctx, h.Acc.NewAccountWithAddress(ctx, a))
 	}
-	h.Height = 0
-	h.Time = 1600000000
-	return h
 }
 
 // GenesisState builds the mhub2 genesis from the configuration.
